@@ -162,6 +162,17 @@ func init() {
 }
 
 func c14Setup(w *World) error {
+	// a service whose memory buffer is larger than what a connection takes without being read (memnet.PipeWindow)
+	{
+		tg := w.AddTarget("btbig:80")
+		tg.Responder = c14Responder
+		a := deployArgs("bsbig", []string{"btbig:80"}, []string{"big.example.com"}, nil)
+		a.TargetOptions.BufferRequests = true
+		a.TargetOptions.MaxMemoryBufferSize = 300 << 10
+		if r := w.Deploy(a); r.Err != nil {
+			return r.Err
+		}
+	}
 	for i, s := range c14Services {
 		t := fmt.Sprintf("bt%d:80", i)
 		tg := w.AddTarget(t)
@@ -254,6 +265,100 @@ type c14in struct {
 func (c c14in) name() string {
 	s := c14Services[c.svc]
 	return fmt.Sprintf("svc=%d(reqbuf=%v respbuf=%v M=%d Lreq=%d Lresp=%d) req=%d/%s resp=%d/%s kind=%s te=%v", c.svc, s.reqBuf, s.respBuf, s.M, s.Lreq, s.Lresp, c.reqLen, c.reqPat, c.respLen, c.respPat, c.kind, c.te)
+}
+
+// c14EarlyAnswer: the target answers after reading only 2 bytes of a buffered request body and closes the connection
+// (the read-out of the buffer is cut short); the next buffered request must still carry exactly its own bytes, and
+// nothing is left behind.
+func c14EarlyAnswer(c c14in) func(w *World) []Violation {
+	return func(w *World) []Violation {
+		var vs []Violation
+		add := func(sig, d string) { vs = append(vs, Violation{"C14", sig, c.name() + ": " + d}) }
+		s := c14Services[c.svc]
+		body := make([]byte, c.reqLen)
+		for i := range body {
+			body[i] = byte('A' + i%26)
+		}
+		w.reqSeq++
+		mk := fmt.Sprintf("c14e-%d", w.reqSeq)
+		spec := ReqSpec{ID: mk, Method: "POST", Host: s.host(c.svc), Path: "/x", Header: [][2]string{{"X-Verif-Early", "2"}}}
+		switch c.reqPat {
+		case "bytes":
+			for i := range body {
+				spec.BodyChunks = append(spec.BodyChunks, body[i:i+1])
+			}
+		default:
+			spec.BodyChunks = [][]byte{body}
+		}
+		o := w.Do(spec)
+		if !o.Done {
+			add("request-unfinished", "early answer")
+		}
+		// the next request through the same service
+		next := []byte("hello-next")
+		if s.Lreq > 0 && int64(len(next)) > s.Lreq {
+			next = next[:s.Lreq]
+		}
+		mk2 := mk + "-next"
+		o2 := w.Do(ReqSpec{ID: mk2, Method: "POST", Host: s.host(c.svc), Path: "/y", BodyChunks: [][]byte{next}, Header: [][2]string{{"X-Resp", "len=0;pat=one;kind=plain"}}})
+		var got []byte
+		found := false
+		for _, e := range w.Net.Events() {
+			if e.Kind == "req" && e.ReqID == mk2 {
+				got, found = e.Body, true
+			}
+		}
+		if o2.Status != 200 || !found {
+			add("request-after-early-answer-failed", o2.Summary())
+		} else if !bytes.Equal(got, next) {
+			add("request-body-altered after-early-answer", fmt.Sprintf("the target saw %q, the client sent %q", firstN(got, 60), next))
+		}
+		if f := spillFiles(w); len(f) > 0 {
+			add("spill-file-left-behind kind=early-answer", fmt.Sprint(f))
+			for _, x := range f {
+				os.Remove(w.Dir + "/tmp/" + x)
+			}
+		}
+		return vs
+	}
+}
+
+// c14EarlyAnswerBig: a 200 kB body held in memory, the target answers after 2 bytes and closes: most of the body is
+// never read out of the buffer. The next buffered body must arrive exactly as sent.
+func c14EarlyAnswerBig(w *World) []Violation {
+	var vs []Violation
+	add := func(sig, d string) { vs = append(vs, Violation{"C14", sig, "200kB body, target answers early: " + d}) }
+	big := bytes.Repeat([]byte("0123456789abcdef"), 200*1024/16)
+	w.reqSeq++
+	mk := fmt.Sprintf("c14big-%d", w.reqSeq)
+	o := w.Do(ReqSpec{ID: mk, Method: "POST", Host: "big.example.com", Path: "/x", Header: [][2]string{{"X-Verif-Early", "2"}}, BodyChunks: [][]byte{big}})
+	if !o.Done {
+		add("request-unfinished", "")
+	}
+	for i := 0; i < 2; i++ {
+		next := []byte(fmt.Sprintf("hello-next-%d", i))
+		mk2 := fmt.Sprintf("%s-next%d", mk, i)
+		o2 := w.Do(ReqSpec{ID: mk2, Method: "POST", Host: "big.example.com", Path: "/y", BodyChunks: [][]byte{next}, Header: [][2]string{{"X-Resp", "len=0;pat=one;kind=plain"}}})
+		var got []byte
+		found := false
+		for _, e := range w.Net.Events() {
+			if e.Kind == "req" && e.ReqID == mk2 {
+				got, found = e.Body, true
+			}
+		}
+		if o2.Status != 200 || !found {
+			add("request-after-early-answer-failed", o2.Summary())
+		} else if !bytes.Equal(got, next) {
+			add("request-body-altered after-early-answer", fmt.Sprintf("the target saw %d bytes starting %q, the client sent %q", len(got), firstN(got, 40), next))
+		}
+	}
+	if f := spillFiles(w); len(f) > 0 {
+		add("spill-file-left-behind kind=early-answer", fmt.Sprint(f))
+		for _, x := range f {
+			os.Remove(w.Dir + "/tmp/" + x)
+		}
+	}
+	return vs
 }
 
 func c14Level2(c c14in) func(w *World) []Violation {
@@ -513,6 +618,10 @@ func c14Cases(tier string) []ECase {
 						cases = append(cases, ECase{Name: "L2 " + in.name(), Class: fmt.Sprintf("L2 svc=%d overflow-then-fit", si), Run: c14Level2(in)})
 					}
 				}
+				if s.reqBuf && rl > 2 && (s.Lreq == 0 || int64(rl) <= s.Lreq) {
+					in := c14in{svc: si, reqLen: rl, reqPat: rp, respLen: 0, respPat: "one", kind: "early-answer"}
+					cases = append(cases, ECase{Name: "L2 " + in.name(), Class: fmt.Sprintf("L2 svc=%d early-answer", si), Run: c14EarlyAnswer(in)})
+				}
 				for _, kind := range []string{"sse", "upgrade", "cut", "abort-upload", "abort-wait"} {
 					in := c14in{svc: si, reqLen: rl, reqPat: rp, respLen: 9, respPat: "one", kind: kind}
 					cases = append(cases, ECase{Name: "L2 " + in.name(), Class: fmt.Sprintf("L2 svc=%d %s", si, kind), Run: c14Level2(in)})
@@ -520,6 +629,7 @@ func c14Cases(tier string) []ECase {
 			}
 		}
 	}
+	cases = append(cases, ECase{Name: "L2 200kB body in memory, target answers early, then two more requests", Class: "L2 early-answer big", Run: c14EarlyAnswerBig})
 	// stable order
 	return cases
 }
@@ -529,7 +639,7 @@ func checkC14(t *testing.T, job *Job, res *Result) {
 	if job.Replay != nil {
 		tier = job.Replay.Tier
 	}
-	res.Rule = "level 1: Buffer directly: memory limit M in {0,1,2,3,5} x total limit L in {0,M-1,M,M+1,2M+1} x body length 0..L+2 (<=7 quick, <=9 thorough) x EVERY composition of the body into write chunks x read-back chunking {1,2,all}; level 2: through the handler chain: request/response buffering on/off x (M,Lreq,Lresp) x body lengths {0,M,M+1,L,L+1,L+5,9} x chunk patterns {one, bytewise, M|rest, piece over the limit followed by a piece that fits again} with virtual gaps x request bodies with and without a declared length x endings {success, 413, 500, target cut mid-body, client abort mid-upload, client abort while waiting} x {plain, event stream with timed events, upgrade}; oracle: accepted/overflow decisions, memory bound, spill presence, exact bytes, timing on the virtual clock, no spill file left"
+	res.Rule = "level 1: Buffer directly: memory limit M in {0,1,2,3,5} x total limit L in {0,M-1,M,M+1,2M+1} x body length 0..L+2 (<=7 quick, <=9 thorough) x EVERY composition of the body into write chunks x read-back chunking {1,2,all}; level 2: through the handler chain: request/response buffering on/off x (M,Lreq,Lresp) x body lengths {0,M,M+1,L,L+1,L+5,9} x chunk patterns {one, bytewise, M|rest, piece over the limit followed by a piece that fits again} with virtual gaps x request bodies with and without a declared length x endings {success, 413, 500, target cut mid-body, target answering before it has read the body (followed by another request), client abort mid-upload, client abort while waiting} x {plain, event stream with timed events, upgrade}; oracle: accepted/overflow decisions, memory bound, spill presence, exact bytes, timing on the virtual clock, no spill file left"
 	res.Bounds = "see rule"
 	runE(t, job, res, &ESpec{Prop: "C14", Setup: c14Setup, Cases: c14Cases(tier), Batch: 300})
 }
